@@ -196,7 +196,7 @@ def poolLaws(E, cls, k, w):
 
 def harnesses(tier):
     q = tier == "quick"
-    T = 600 if q else 2400
+    T = 600 if q else 900
     N = 4 if q else 6
     hs = []
     for law in ('assoc', 'units', 'tensor_assoc', 'whisker', 'dagger'):
